@@ -30,7 +30,7 @@ def plan(tier, seed):
     n = 8 if tier == "quick" else 32
     return ([{"kind": "laws", "n": 900 if tier == "quick" else 6000} for _ in range(n)]
             + [{"kind": "templates", "n": 700 if tier == "quick" else 5000} for _ in range(n // 2)]
-            + [{"kind": "fixed"}])
+            + [{"kind": "fixed"}, {"kind": "qualified", "sample": 60 if tier == "quick" else None}])
 
 
 def S(s, r=None):
@@ -269,6 +269,9 @@ def template_cases(R, r):
 
 
 def run_shard(spec, ctx):
+    if spec["kind"] == "qualified":
+        from cklmon import matrix
+        return matrix.unbound_names_in_modules(ctx, "C18", ["String"], sample=spec.get("sample"))
     R = Runner(ctx)
     r = ctx.rng
     if spec["kind"] == "laws":
